@@ -49,6 +49,18 @@ def split_list(v):
 
 def shrink_scenario(lines, fails):
     """Greedy removal of timeline (`at ...`) lines while `fails(lines)` stays true."""
+    def trim(ls):
+        """end the run two virtual minutes after the last scripted action"""
+        ats = [int(l.split()[1]) for l in ls if l.startswith("at ")]
+        if not ats:
+            return ls
+        out = []
+        for l in ls:
+            if l.startswith("end "):
+                l = "end %d" % min(int(l.split()[1]), max(ats) + 120 * 10**9)
+            out.append(l)
+        return out
+
     cur = list(lines)
     idx = [i for i, l in enumerate(cur) if l.startswith("at ")]
     chunk = max(1, len(idx) // 2)
@@ -58,7 +70,7 @@ def shrink_scenario(lines, fails):
         idx = [k for k, l in enumerate(cur) if l.startswith("at ")]
         while i < len(idx):
             drop = set(idx[i:i + chunk])
-            cand = [l for k, l in enumerate(cur) if k not in drop]
+            cand = trim([l for k, l in enumerate(cur) if k not in drop])
             try:
                 bad = fails(cand)
             except Broken:
@@ -75,7 +87,7 @@ def shrink_scenario(lines, fails):
 
 
 def run(res, prop, note, gen, checker, n_quick, n_thorough, rule, assumptions, validate=True, post=None,
-        max_validate_events=2500):
+        max_validate_events=2500, sim_timeout=300):
     rng = Rng(res.seed).fork(prop.lower())
     proved = vlib.prove(res, prop, extra_targets=RUN_TARGETS)
     if not proved:
@@ -89,7 +101,7 @@ def run(res, prop, note, gen, checker, n_quick, n_thorough, rule, assumptions, v
     scs = list(corpus)
     for i in range(n):
         scs.append(gen(rng.fork("k%d" % i), consts, i))
-    logs = simlib.run_sims([sc.text() for sc, _ in scs])
+    logs = simlib.run_sims([sc.text() for sc, _ in scs], timeout=sim_timeout)
     traces = [simlib.Trace(l, sc.node) if sc.node else None for l, (sc, _) in zip(logs, scs)]
     nev = sum(len(t.events) for t in traces if t)
     res.evaluations = nev
@@ -120,14 +132,14 @@ def run(res, prop, note, gen, checker, n_quick, n_thorough, rule, assumptions, v
                 s2 = simlib.Scenario()
                 s2.lines = lines
                 s2.node = sc.node
-                lg = simlib.run_sim(s2.text())
+                lg = simlib.run_sim(s2.text(), timeout=sim_timeout)
                 t2 = simlib.Trace(lg, sc.node) if sc.node else None
                 return bool(checker(s2, meta, lg, t2))
             small = shrink_scenario(sc.lines, fails)
             s2 = simlib.Scenario()
             s2.lines = small
             s2.node = sc.node
-            lg = simlib.run_sim(s2.text())
+            lg = simlib.run_sim(s2.text(), timeout=sim_timeout)
             v2 = checker(s2, meta, lg, simlib.Trace(lg, sc.node) if sc.node else None) or v
             res.violations.append({"property": prop, "kind": v2[0]["kind"], "what": v2[0], "scenario": small,
                                    "how": "harness sim < scenario; the property checker runs on the log of the real node"})
